@@ -8,6 +8,7 @@ find_starting_conditions differentiated along the radius against the solver's ow
 smoothness scan along the start radius (finds the branch switch of the shared z(x) helper).
 Known findings: the first two Takeuchi-Saito vectors are not solutions of the solver's ODEs (y2, y5 rows; visible in Love
 numbers once r0 >= 0.1 x core radius), the Kamata vectors jump by 3e-5 where z(x) switches from its series to its recursion."""
+import math
 import random
 
 from .. import solver_obs as so
@@ -34,12 +35,22 @@ G = 6.6743e-11
 
 
 def bodies(tier, rng):
-    out = [dict(R=6.0e6, rho=5000.0, K=2.0e11, mu=5.0e10 + 2.0e9j, freq=1.0e-5)]
+    out = [dict(R=6.0e6, rho=5000.0, K=2.0e11, mu=5.0e10 + 2.0e9j, freq=1.0e-5),
+           # the same kind of body in the solver's non-dimensional units (R = 1, rho_bar = 1, G = 1/pi): the starting conditions must use the G they are given
+           dict(R=1.0, rho=1.3, K=0.9, mu=0.25 + 0.01j, freq=0.05, G=1.0 / math.pi)]
     for i in range(2 if tier == "quick" else 12):
         mu = 10 ** rng.uniform(9, 11.3)
         out.append(dict(R=10 ** rng.uniform(5, 8), rho=rng.uniform(1000, 10000), K=mu * 10 ** rng.uniform(0.3, 3), mu=complex(mu, mu * 10 ** rng.uniform(-3, 0)),
                         freq=10 ** rng.uniform(-7, -4)))
     return out
+
+
+def _takeuchi_liquid_arg(freq, r, rho, K, l, G=G):
+    """|z| = |k^2 r^2|, the argument of the six-term phi / psi series in starting/takeuchi.pyx (liquid, dynamic, compressible)"""
+    gamma = 4.0 * math.pi * G * rho / 3.0
+    w2 = freq * freq
+    k2 = (rho / K) * (w2 + 4.0 * gamma - l * (l + 1.0) * gamma * gamma / w2)
+    return abs(k2 * r * r)
 
 
 def start_vector_lattice(ck, tier, rng):
@@ -54,7 +65,7 @@ def start_vector_lattice(ck, tier, rng):
                     continue                      # dispatch: NotImplementedError (checked by the representation replay)
                 for l in ((2, 3, 5) if tier == "quick" else (2, 3, 4, 5, 7, 10)):
                     for frac in so.START_LEVELS + [0.03, 0.25]:
-                        res = so_.ode_residual(static, incomp, kam, b["freq"], frac * b["R"], b["rho"], b["K"], b["mu"], l, G)
+                        res = so_.ode_residual(static, incomp, kam, b["freq"], frac * b["R"], b["rho"], b["K"], b["mu"], l, b.get("G", G))
                         fam = "kamata" if kam else "takeuchi"
                         for i, x in enumerate(res):
                             ck.case(("ode", fam, static, incomp, l, frac, i, b["R"]), True)
@@ -62,9 +73,31 @@ def start_vector_lattice(ck, tier, rng):
                             # exact families give ~1e-10 (finite differences); 1e-4 leaves room for the z(x) branch jump,
                             # which is reported by its own clause below
                             if not x <= 1e-4:
+                                # a stencil that straddles a DISCONTINUITY of the vectors (the z(x) branch switch) gives a residual that
+                                # grows like 1/h; a vector that is not a solution gives an h-independent one
+                                x_small_h = so_.ode_residual(static, incomp, kam, b["freq"], frac * b["R"], b["rho"], b["K"], b["mu"], l, b.get("G", G), h_rel=5e-4)[i]
+                                if x_small_h >= 2.5 * x or x_small_h <= 0.2 * x:
+                                    ck.violation({"clause": "start_vector_jump", "family": fam, "static": static, "incomp": incomp},
+                                                 "%s starting vectors (static=%s, incompressible=%s, l=%d) are discontinuous in r near r0/R = %g: finite-difference ODE residual %.3g at h = 2e-3 r, %.3g at h = 5e-4 r" % (
+                                                     fam, static, incomp, l, frac, x, x_small_h), dict(body={k: str(v) for k, v in b.items()}, l=l, r0_over_R=frac, family=fam))
+                                    continue
                                 ck.violation({"clause": "start_vector_ode", "family": fam, "solution": i, "static": static, "incomp": incomp},
                                              "%s starting vector %d (static=%s, incompressible=%s, l=%d, r0/R=%g) is not a solution of the solver's ODEs: the part of ds/dr - A s outside the span of the three start vectors is %.3g of |A s|" % (
                                                  fam, i, static, incomp, l, frac, x), dict(body={k: str(v) for k, v in b.items()}, l=l, r0_over_R=frac, family=fam, static=static, incompressible=incomp))
+        # liquid innermost layers: Saito's static vector (any family), Kamata / Takeuchi dynamic vectors
+        for static, incomp, kam in ((True, False, True), (True, True, False), (False, False, True), (False, True, True), (False, False, False)):
+            for l in ((2, 3) if tier == "quick" else (2, 3, 4, 6, 10)):
+                for frac in (1e-3, 0.03, 0.25):
+                    fq = b["freq"] if (static or "G" in b) else max(b["freq"], 3e-4)
+                    res = so_.ode_residual_liquid(static, incomp, kam, fq, frac * b["R"], b["rho"], b["K"], l, b.get("G", G))
+                    fam = ("saito" if static else ("kamata" if kam else "takeuchi")) + "_liquid"
+                    for i, x in enumerate(res):
+                        ck.case(("ode_liquid", fam, static, incomp, l, frac, i, b["R"]), True)
+                        worst[(fam, i)] = max(worst.get((fam, i), 0.0), x)
+                        if not x <= 1e-4:
+                            ck.violation({"clause": "start_vector_ode", "family": fam, "solution": i, "static": static, "incomp": incomp, "series_argument_above_0.3": bool(_takeuchi_liquid_arg(fq, frac * b["R"], b["rho"], b["K"], l, b.get("G", G)) > 0.3)},
+                                         "%s starting vector %d (static=%s, incompressible=%s, l=%d, r0/R=%g) is not a solution of the solver's liquid-layer ODEs (residual outside the span %.3g)" % (fam, i, static, incomp, l, frac, x),
+                                         dict(body={k: str(v) for k, v in b.items()}, l=l, r0_over_R=frac, family=fam, static=static, incompressible=incomp))
     ck.notes["start_vector_ode_worst"] = {"%s/%d" % k: v for k, v in worst.items()}
 
 
